@@ -629,12 +629,29 @@ Definition show_attr (a : attr) : string :=
   | AObj r => "o" ++ lp r | AUnh s => "u" ++ lp s
   end.
 
-Fixpoint show (e : expr) : string :=
-  match e with
-  | Sym s => "Y" ++ lp s
-  | Num q => "N" ++ z_str (Qnum q) ++ "/" ++ z_str (Zpos (Qden q)) ++ ";"
-  | App h args => "A" ++ lp h ++ nat_str (length args) ++ ";" ++ String.concat "" (map show args)
-  | Unev c args attrs =>
-      "U" ++ lp c ++ nat_str (length args) ++ ";" ++ String.concat "" (map show args)
-          ++ nat_str (length attrs) ++ ";" ++ String.concat "" (map show_attr attrs)
+(* difference-list printer: linear in the size of the output *)
+Definition lpk (s k : string) : string := nat_str (String.length s) ++ ":" ++ s ++ k.
+
+Definition show_attr_k (a : attr) (k : string) : string :=
+  match a with
+  | ANone => ("n" ++ k) | AStr s => ("s" ++ lpk s k) | ACls q => ("c" ++ lpk q k)
+  | AObj r => ("o" ++ lpk r k) | AUnh s => ("u" ++ lpk s k)
   end.
+
+Fixpoint shows (e : expr) (k : string) : string :=
+  match e with
+  | Sym s => ("Y" ++ lpk s k)
+  | Num q => ("N" ++ z_str (Qnum q) ++ "/" ++ z_str (Zpos (Qden q)) ++ ";" ++ k)
+  | App h args =>
+      "A" ++ (lpk h (nat_str (length args) ++ ";" ++
+        (fix go (l : list expr) : string := match l with [] => k | x :: l' => shows x (go l') end) args))
+  | Unev c args attrs =>
+      "U" ++ (lpk c (nat_str (length args) ++ ";" ++
+        (fix go (l : list expr) : string :=
+           match l with
+           | [] => nat_str (length attrs) ++ ";" ++ fold_right show_attr_k k attrs
+           | x :: l' => shows x (go l')
+           end) args))
+  end.
+
+Definition show (e : expr) : string := shows e "".
